@@ -271,12 +271,20 @@ func runC03(r *Run) {
 	checkEqualNil(r, eqr)
 	eqr.Done()
 
-	// ---- a decoded message satisfies the invariant the write side relies on
-	if cl := p.buildClosures(); cl.DecodeM != nil {
-		rl := r.Rule("C03.rawlen", "on every success path Decode cuts Raw to exactly 20 + declared length (so len(Raw) = 20 + Length holds for every message the building operations start from)", 1)
-		checkDecodeRawLen(r, rl, le, cl.DecodeM, rawF)
-		rl.Done()
+	// ---- the header helpers stay inside Raw whatever state the message is in
+	hb := r.Rule("C03.hdrbounds", "every slice and accessor of Raw in WriteHeader, WriteType, WriteLength and WriteTransactionID is proved within len(Raw) from the grow that precedes it: the header setters accept a message without header (new(Message), one left by a failed Decode) instead of panicking", 4)
+	{
+		var fns []*ssa.Function
+		for _, n := range []string{"WriteHeader", "WriteType", "WriteLength", "WriteTransactionID"} {
+			if f := p.Meth("Message", n); f != nil {
+				fns = append(fns, f)
+			} else {
+				hb.Fail(n, "not found")
+			}
+		}
+		runBounds(r, hb, fns, &justTable{}, map[*ssa.Function]*IntSummary{})
 	}
+	hb.Done()
 
 	// ---- every attribute type Add can write is stored unchanged by Decode
 	ti := r.Rule("C03.typeident", "the attribute-type translation applied by Decode is the identity on every type that Add can write", 1)
@@ -887,79 +895,5 @@ func checkEqualNil(r *Run, rc *RuleCtx) {
 			rc.Violation(fn, instrPos(bo), exprDepth(bo, 0), "Equal distinguishes a nil slice from an empty one: a reused Message without attributes (empty list) is not Equal to the decode of its own bytes into a fresh Message (nil list), although their content is the same")
 		})
 		rc.Instance(fnName(fn)+"|no nil test of a slice", true, map[string]string{"fn": fnName(fn)})
-	}
-}
-
-// checkDecodeRawLen: on every success path Decode leaves Raw cut to exactly the declared message,
-// Raw = buf[:20+size] - the invariant len(Raw) = 20 + Length that the whole write side (header
-// rewrite, integrity and fingerprint setters hashing "the message") relies on.
-func checkDecodeRawLen(r *Run, rc *RuleCtx, le *linEval, dm *ssa.Function, rawF *types.Var) {
-	p := r.P
-	r.Analysed(dm)
-	idx := errorResultIndex(dm)
-	if idx < 0 {
-		rc.Fail("Decode", "no error result")
-		return
-	}
-	// the declared size: u16 at [2:4) of Raw
-	var sizeSite *wireSite
-	sites := wireSites(le, dm)
-	for i := range sites {
-		s := &sites[i]
-		if s.Kind == "Uint16" && valueIsLoadOfField(s.Root, rawF) {
-			if lo, hi, ok := s.constRange(); ok && lo == 2 && hi == 4 {
-				sizeSite = s
-			}
-		}
-	}
-	if sizeSite == nil {
-		rc.Fail("declared size", "the 16-bit length field read at Raw[2:4) was not found in Decode: undecided")
-		return
-	}
-	want := linExpr{C: 20, Terms: map[string]int64{}}.add(le.Eval(sizeSite.Val), 1)
-	cuts := map[ssa.Instruction]bool{}
-	for _, a := range fieldAccesses(dm, rawF) {
-		st, ok := a.Instr.(*ssa.Store)
-		if !ok || a.Kind != "store" {
-			continue
-		}
-		root, lo, hi := le.window(st.Val)
-		if !valueIsLoadOfField(root, rawF) || hi == nil {
-			continue
-		}
-		if c, isC := lo.isConst(); !isC || c != 0 {
-			continue
-		}
-		if hi.equal(want) {
-			cuts[st] = true
-		}
-	}
-	nSucc, nBad := 0, 0
-	var bad *ssa.Return
-	witness := ""
-	q := &PathQuery{P: p, Fn: dm}
-	q.Step = func(in ssa.Instruction, deferred bool, st uint64, c *PathCtx) (uint64, bool) {
-		if cuts[in] {
-			return st | 1, false
-		}
-		return st, false
-	}
-	q.AtReturn = func(ret *ssa.Return, st uint64, c *PathCtx) {
-		if c.NilState(ret.Results[idx]) == -1 {
-			return
-		}
-		nSucc++
-		if st&1 == 0 {
-			nBad++
-			if bad == nil {
-				bad = ret
-				witness = c.Witness(dm, ret)
-			}
-		}
-	}
-	q.Run()
-	rc.Instance(fnName(dm)+"|Raw cut to the declared message", true, map[string]int{"success_paths": nSucc, "cut_sites": len(cuts)})
-	if bad != nil {
-		rc.ViolationPath(dm, instrPos(bad), "Raw keeps bytes beyond the declared message", "Decode succeeds without cutting Raw to 20 + declared length: bytes that follow the message in the buffer stay in Raw, so len(Raw) != 20 + Length; the integrity and fingerprint setters then hash those foreign bytes (the message they produce fails its own check) and a header rewrite leaves them behind the attributes", witness)
 	}
 }
